@@ -387,6 +387,11 @@ func (f *File) seekWithoutLocking(offset int64, whence int) (int64, error) {
 					return
 				}
 
+				// A restore that failed with io.EOF (i.e. a damaged record that ends early) must not look like the regular end of the file
+				if err == io.EOF {
+					err = io.ErrUnexpectedEOF
+				}
+
 				// Hand the error to the reader instead of crashing the process
 				_ = writer.CloseWithError(err)
 
@@ -572,6 +577,11 @@ func (f *File) Read(p []byte) (n int, err error) {
 			); err != nil {
 				if err == io.ErrClosedPipe {
 					return
+				}
+
+				// A restore that failed with io.EOF (i.e. a damaged record that ends early) must not look like the regular end of the file
+				if err == io.EOF {
+					err = io.ErrUnexpectedEOF
 				}
 
 				// Hand the error to the reader instead of crashing the process
